@@ -297,4 +297,25 @@ example : (Item.cmd none (mkCall "cpp_attr" ["K", "color", "red"])).spec {} .sho
     { attrs := [{ name := lit "color", doc := [], parentClass := lit "K", dflt := some (lit "red") }] } :=
   C09_attr {} none _ (lit "K") (lit "color") (some (lit "red")) [] (by decide) (Or.inr rfl) (by decide)
 
+/-- A member/constructor declaration in a shown class takes the awaiting-definition slot for itself, whatever was left pending there
+    (a declaration that was never implemented, known finding K8): the slot afterwards names this declaration — its class entry, its kind and
+    its position in the member list — and the right-hand side does not mention the earlier content of the slot.  With
+    `C03_documented_impl_step`/`step` this is why a declaration directly followed by its definition is always linked to that definition
+    (the `adjacent-pairs-only` clause of the C09 oracle). -/
+theorem C09_decl_takes_slot (isCtor : Bool) (st : AggState) (cmd : Cmd) (doc name parent : Str) (types : List Str)
+    (h : cmd.singles = name :: parent :: types) (ci : Nat) (rest : List (Option Nat)) (hc : st.classStack = some ci :: rest) :
+    (processCppMember isCtor st cmd doc).awaiting =
+      some (.method ci isCtor (methodCount isCtor (st.documented.getD ci default))) ∧
+    (processCppMember isCtor st cmd doc).classStack = st.classStack ∧
+    (processCppMember isCtor st cmd doc).defStack = st.defStack := by
+  unfold processCppMember
+  simp [h, hc]
+
+/-- … and in particular the result is the same for every earlier content of the slot -/
+theorem C09_decl_ignores_pending (isCtor : Bool) (st : AggState) (a : Option AwaitRef) (cmd : Cmd) (doc name parent : Str) (types : List Str)
+    (h : cmd.singles = name :: parent :: types) (ci : Nat) (rest : List (Option Nat)) (hc : st.classStack = some ci :: rest) :
+    processCppMember isCtor { st with awaiting := a } cmd doc = processCppMember isCtor st cmd doc := by
+  unfold processCppMember
+  simp [h, hc]
+
 end Cminx
